@@ -53,7 +53,7 @@ func init() {
 // WaitGroup.Add)? Returns the receiver operand.
 func syncCall(ci ssa.CallInstruction, typ, name string) (ssa.Value, bool) {
 	com := ci.Common()
-	sc := com.StaticCallee()
+	sc := ir.Callee(com)
 	if sc == nil || sc.Name() != name || sc.Signature.Recv() == nil || len(com.Args) == 0 {
 		return nil, false
 	}
@@ -235,7 +235,7 @@ func errorPropagated(fn *ssa.Function, after ssa.Instruction, r ssa.Value) (bool
 					}
 				}
 				if call, isCall := x.Cond.(*ssa.Call); isCall {
-					if sc := call.Call.StaticCallee(); sc != nil && sc.String() == "errors.Is" && len(call.Call.Args) == 2 &&
+					if sc := ir.Callee(call.Call); sc != nil && sc.String() == "errors.Is" && len(call.Call.Args) == 2 &&
 						isR(ir.Strip(call.Call.Args[0])) && isSentinel(ir.Strip(call.Call.Args[1])) && sentinelMayStopHere(fn, ir.Strip(call.Call.Args[1])) {
 						visit(b.Succs[1], 0) // not the sentinel: keep looking; the sentinel edge is the stop protocol
 						return
@@ -611,7 +611,7 @@ func runCACHEKEY(c *Ctx) {
 				return v
 			}
 			// part 0: P.NodeURLPrefix() ; part 1: the name
-			pfx, _ := ir.Origin(parts[0]).(*ssa.Call)
+			pfx, _ := ir.Origin(back(parts[0])).(*ssa.Call)
 			if pfx == nil || !pfx.Call.IsInvoke() || pfx.Call.Method.Name() != "NodeURLPrefix" {
 				c.Violation(fn, pos, ext+" key without store prefix", "the first component of the cache key is not Persist.NodeURLPrefix(): nodes of different stores collide in a shared cache")
 				continue
@@ -745,7 +745,7 @@ func runCACHEAFTER(c *Ctx) {
 // goBody resolves the function a go statement starts: a static callee, or a
 // closure held in a local variable (possibly captured by the spawning closure).
 func goBody(g *ssa.Go) *ssa.Function {
-	if f := g.Call.StaticCallee(); f != nil {
+	if f := ir.Callee(g.Call); f != nil {
 		return f
 	}
 	switch x := ir.Origin(g.Call.Value).(type) {
@@ -768,7 +768,7 @@ func sprintfThroughHelpers(v ssa.Value, depth int) (*ssa.Call, map[*ssa.Paramete
 		if !ok {
 			return nil, nil
 		}
-		sc := call.Call.StaticCallee()
+		sc := ir.Callee(call.Call)
 		if sc == nil {
 			return nil, nil
 		}
@@ -852,7 +852,7 @@ func keyParts(v ssa.Value) (parts []ssa.Value, fs string, env map[*ssa.Parameter
 		if !ok {
 			return nil, "", nil
 		}
-		sc := call.Call.StaticCallee()
+		sc := ir.Callee(call.Call)
 		if sc == nil {
 			return nil, "", nil
 		}
